@@ -2637,7 +2637,8 @@ func (t *Topic) replyGetSub(sess *Session, asUid types.Uid, authLevel auth.Level
 				}
 				if isReader && !banned {
 					mts.ReadSeqId = sub.ReadSeqId
-					mts.RecvSeqId = sub.RecvSeqId
+					// Make sure reported values are sane: a read note moves only the stored read mark.
+					mts.RecvSeqId = max(sub.RecvSeqId, sub.ReadSeqId)
 				}
 
 				if t.cat != types.TopicCatFnd {
